@@ -47,6 +47,10 @@ func TestC30(t *testing.T) {
 		{"strict-stdin-attach-fails", c10.Op{Kind: "lambda", Pod: 0, Count: 1, CPU: 50, Mem: 100, Stdin: true, Script: cw.LambdaScript{AttachErr: true}}, nil, 0, true},
 		{"strict-wait-call-fails", c10.Op{Kind: "lambda", Pod: 0, Count: 1, CPU: 50, Mem: 100, Lines: 1, Script: ok}, &c10.FaultSpec{Method: "VirtualizationWait", Target: "*", Ord: 0}, 0, true},
 		{"strict-plain", c10.Op{Kind: "lambda", Pod: 0, Count: 2, CPU: 50, Mem: 100, Lines: 1, Script: ok}, nil, 0, true},
+		// stdin run-and-wait whose caller keeps its input channel open (the driver passes a channel it never closes) until
+		// after the workload's output has ended: the exit code must still be reported, the workload removed, the stream closed
+		{"stdin-input-kept-open", c10.Op{Kind: "lambda", Pod: 0, Count: 1, CPU: 50, Mem: 100, Stdin: true, Lines: 2, Script: ok}, nil, 0, false},
+		{"strict-stdin-input-kept-open", c10.Op{Kind: "lambda", Pod: 1, Count: 1, CPU: 50, Mem: 100, Stdin: true, Lines: 1, Script: cw.LambdaScript{ExitCode: 0}}, nil, 1, true},
 		{"wait-call-fails", c10.Op{Kind: "lambda", Pod: 0, Count: 1, CPU: 50, Mem: 100, Lines: 1, Script: ok}, &c10.FaultSpec{Method: "VirtualizationWait", Target: "*", Ord: 0}, 0, false},
 	}
 	run := func(s scen, tag string) {
@@ -66,6 +70,9 @@ func TestC30(t *testing.T) {
 		r.Count("count=" + vh.Nat(o.Count))
 		if o.Stdin {
 			r.Count("stdin")
+			if o.Count == 1 && !o.Script.AttachErr && !o.Script.LogsErr && st.Err == 0 {
+				r.Count("stdin-input-kept-open") // the run got as far as the input pump; the caller never closes its input
+			}
 		}
 		if o.Script.LogsErr || o.Script.AttachErr || o.Script.WaitErr {
 			r.Count("engine-outcome-error")
